@@ -112,7 +112,12 @@ TGrow == /\ l <= Len(TraceLog) /\ Ln.e = "grow" /\ l' = l + 1
          /\ Ln.leaf_rc = (IF Ln.kind = 1 THEN 2 * Ln.n ELSE Ln.n) + 1 /\ Ln.leaf_rc_after = 1 /\ Ln.live = 0
          /\ UNCHANGED <<ivars, cost>>
 
-TNext == TOp \/ TEnd \/ TReset \/ TGrow
+(* a definite container preallocated for n entries: refused, or it really has room for what it says (size can never exceed a capacity that exists) *)
+THuge == /\ l <= Len(TraceLog) /\ Ln.e = "hugecap" /\ l' = l + 1
+         /\ (Ln.ok => ~Ln.under /\ Ln.cap_is_n) /\ Ln.live = 0
+         /\ UNCHANGED <<ivars, cost>>
+
+TNext == TOp \/ TEnd \/ TReset \/ TGrow \/ THuge
 TSpec == TInit /\ [][TNext]_tvars
 
 GrowthLogarithmic == \A i \in live : grows[i] <= 2 * Log2Ceil(Size(i) + 1) + 2
